@@ -121,3 +121,29 @@ def install(world):     # noqa
     B.SPEC_FUNCS['strptime'] = m_strptime
     B.SPEC_FUNCS['strftime'] = m_strftime
     B.SPEC_FUNCS['valid_time'] = sp_valid_time
+
+
+def sp_NL(it, args, kwargs):
+    """NL(s): number of line terminators of s, i.e. len(re.findall(r'\\r\\n|\\n|\\r', s))"""
+    v = args[0]
+    if isinstance(v, str):
+        import re as _re
+        return len(_re.findall(r'\r\n|\n|\r', v))
+    s_ = pv.as_term_str(v)
+    n = re_findall_count(z3.StringVal('\\r\\n|\\n|\\r'), s_)
+    ctx = it.ctx
+    ctx.assume(n >= 0)
+    # facts about the count (properties of re.findall, trusted): no CR / LF -> 0; the three terminators -> 1
+    nocrlf = z3.And(z3.Not(z3.Contains(s_, z3.StringVal('\n'))), z3.Not(z3.Contains(s_, z3.StringVal('\r'))))
+    ctx.assume(nocrlf == (n == 0))
+    for lit in ('\r\n', '\n', '\r'):
+        ctx.assume(z3.Implies(s_ == z3.StringVal(lit), n == 1))
+    return SInt(n)
+
+
+_orig_install4 = install
+
+
+def install(world):     # noqa
+    _orig_install4(world)
+    B.SPEC_FUNCS['NL'] = sp_NL
